@@ -117,7 +117,6 @@ func runMesh() map[string]string {
 		res["mesh"] = "skipped-join-failed"
 		return res
 	}
-	defer n1.p.Leave(time.Second)
 	res["two-nodes-see-each-other"] = waitFor(10*time.Second, func() bool { return len(n0.p.Peers()) == 2 && len(n1.p.Peers()) == 2 })
 
 	ctx := context.Background()
@@ -160,6 +159,35 @@ func runMesh() map[string]string {
 	}
 	defer n2.p.Leave(time.Second)
 	res["late-joiner-gets-full-state"] = waitFor(10*time.Second, func() bool { return has(n2) && hasLog(n2) })
+
+	// crash without leave, restart on the SAME port under a NEW name, wait for the old name to be declared dead,
+	// then an oversized update from n0 must still reach the restarted instance (reliable channel receiver list =
+	// memberlist members, by name)
+	n1.p.CrashForVerif()
+	n1b, err := startNode("n1b", ports[1], []string{addr(0)})
+	if err != nil {
+		res["restart-same-port-new-name"] = "restart-failed"
+		return res
+	}
+	defer n1b.p.Leave(time.Second)
+	names := func(n *meshNode) map[string]bool {
+		m := map[string]bool{}
+		for _, x := range n.p.Peers() {
+			m[x.Name()] = true
+		}
+		return m
+	}
+	res["restarted-instance-is-member"] = waitFor(10*time.Second, func() bool { return names(n0)["n1b"] })
+	res["old-name-declared-dead"] = waitFor(40*time.Second, func() bool { return !names(n0)["n1"] })
+	firing[0]++
+	if err := n0.nl.Log(recv, gkeys[1], firing, nil, nil, 0); err != nil {
+		res["mesh"] = "log-failed"
+		return res
+	}
+	res["oversized-update-reaches-restarted-instance"] = waitFor(10*time.Second, func() bool {
+		es, err := n1b.nl.Query(nflog.QGroupKey(gkeys[1]), nflog.QReceiver(recv))
+		return err == nil && len(es) == 1 && len(es[0].FiringAlerts) == 100
+	})
 	return res
 }
 
